@@ -385,7 +385,13 @@ def _stmt_transfer(state, s):
     if rv['k'] in ('ref', 'rawptr') and rv.get('mut'):
         _kill(state, rv['place']['l'])
     dst = s['place']
+    alias = None
+    if not dst['p'] and rv['k'] == 'use' and _bare(rv['op']) is not None and _bare(rv['op']) in state and _bare(rv['op']) != dst['l']:
+        alias = state[_bare(rv['op'])]
     _kill(state, dst['l'])
+    if alias is not None and dst['l'] not in alias[2]:
+        state[dst['l']] = alias       # `b = move a` where a is a known enum aggregate
+        return
     if not dst['p'] and rv['k'] == 'aggregate' and rv.get('variant') is not None and rv.get('adt') \
             and all(o.get('k') in ('copy', 'move', 'const') for o in rv['ops']):
         deps = set()
@@ -766,8 +772,49 @@ def expand_combinators(raw, raws, max_n=40):
 
 def normalize(raw, raws=None):
     """in place; returns (combinator expansions, try expansions, threaded jumps, field reads forwarded)"""
-    m = expand_combinators(raw, raws) if raws is not None else 0
+    m = (inline_local_closure_calls(raw, raws) + expand_combinators(raw, raws)) if raws is not None else 0
     a = expand_try(raw)
     b = thread_jumps(raw)
     c = propagate_aggregates(raw) if (a or b or m) else 0
     return m, a, b, c
+
+
+FN_CALLS = ('std::ops::Fn::call', 'std::ops::FnMut::call_mut', 'std::ops::FnOnce::call_once')
+
+
+def inline_local_closure_calls(raw, raws, max_n=12):
+    """a closure of this very function that is called where it is defined (`let f = |x| ..; f(a)`) is written in
+    place: same normal form as a nested fn or the plain statements"""
+    import inline
+    n = 0
+    i = 0
+    while i < len(raw['blocks']) and n < max_n:
+        b = raw['blocks'][i]
+        t = b['term']
+        i += 1
+        if t['k'] != 'call' or t['func'].get('k') != 'const' or not t['func'].get('fn') or t.get('target') is None:
+            continue
+        fn = t['func']['fn']
+        r = fn.get('resolved') or {}
+        if fn['def'] not in FN_CALLS or r.get('kind') != 'item' or not r.get('local') or len(t['args']) != 2:
+            continue
+        cp = r['def']
+        g = raws.get(cp)
+        if g is None or g['kind'] != 'Closure' or g.get('root') != (raw.get('root') or raw['path']) or cp == raw['path']:
+            continue
+        env, tup = t['args']
+        if env.get('k') not in ('copy', 'move') or g['locals'][1]['ty'] != env['place']['ty']:
+            continue
+        nparams = g['arg_count'] - 1
+        if nparams and tup.get('k') not in ('copy', 'move'):
+            continue
+        args = [env]
+        for k in range(nparams):
+            p = copy.deepcopy(tup['place'])
+            ty = g['locals'][2 + k]['ty']
+            p['p'] = p['p'] + [{'f': k, 'n': str(k), 'of': None, 'ty': ty}]
+            p['ty'] = ty
+            args.append({'k': 'move', 'place': p})
+        inline.splice(raw, i - 1, g, args, t['dest'], t['target'], t.get('unwind'), t, cp)
+        n += 1
+    return n
